@@ -35,7 +35,7 @@
 EXTENDS DelimDefs, TLC, Json, IOUtils
 
 CONSTANTS Mode,                  \* "gen" | "judge"
-          ProgFam,               \* which programs: "short" | "wide1" | "wide" | "sets" | "kitchen" | "tags" | "dev"
+          ProgFam,               \* which programs: "short" | "wide_v1".."wide_v4" | "sets" | "kitchen" | "tags" | "dev"
           DSetFam,               \* which delimiter sets: "few" | "named" | "sweep2" | "sweep6" | "sampled" | "dot"
           SeedLo, SeedHi,        \* seeds of the sampled sets
           Unescaped,             \* deviation
@@ -135,9 +135,7 @@ DS_sampled(lo, hi) == {Sampled(seed, 1 + (seed % 4), seed % 3 # 0) : seed \in lo
 
 (* the families the configurations name (zero-arity, so TLC evaluates the chosen one once) *)
 SomeShort == {x \in ShortSources : x[1].s = <<>> /\ x[3].s = <<" ", "x", " ">> /\ x[2].ll /\ ~x[2].lr /\ x[2].k \in {"doc", "short", "raw"}}
-Progs == CASE ProgFam = "wide1" -> LexProgs({1}) \cup ShortProgs({2, 3, 4})
-           [] ProgFam = "wide" -> LexProgs({1, 2, 3, 4})
-           [] ProgFam = "wide_v1" -> LexProgs({1})
+Progs == CASE ProgFam = "wide_v1" -> LexProgs({1})
            [] ProgFam = "wide_v2" -> LexProgs({2})
            [] ProgFam = "wide_v3" -> LexProgs({3})
            [] ProgFam = "wide_v4" -> LexProgs({4})
